@@ -165,6 +165,43 @@ func Run(r *common.Run) error {
 				}
 			}
 		}
+		// The transport is a dimension: the same handshake on a plain io.ReadWriter (no
+		// deadlines, nothing for the context watcher to act on). Failing operations, ends of
+		// input, failing callbacks and cancellation instants must still fail the establishment;
+		// after a cancellation reads and writes go on until the check behind the step.
+		{
+			raw := base
+			raw.Raw = true
+			e.Do(raw, "raw/handshake")
+			for k := 0; k <= ops; k++ {
+				cs := raw
+				cs.Fault = fmt.Sprint(k)
+				e.Do(cs, "raw/fault-io")
+				for _, ek := range errKindsFor(r, bi+k) {
+					cs.ErrKind = ek
+					e.Do(cs, "raw/fault-io/"+string(ek))
+				}
+			}
+			for n := 0; n < len(base.Script); n++ {
+				cs := raw
+				cs.Script = base.Script[:n]
+				e.Do(cs, "raw/cut")
+			}
+			for i := range base.Cfg {
+				cs := raw
+				cs.Cfg = append([]c01.Beh(nil), base.Cfg...)
+				cs.Cfg[i].NegErr = true
+				e.Do(cs, "raw/fault-callback")
+			}
+			for _, kind := range []byte{'c', 'p'} {
+				for n := 0; n <= len(clean.Events); n++ {
+					cs := raw
+					cs.Ctx = kind
+					cs.Fault = fmt.Sprintf("C%d", n)
+					e.Do(cs, "raw/cancel/"+string(kind))
+				}
+			}
+		}
 		// Cancellation, with every kind of context whose Done() can fire: WithCancel, a far
 		// deadline with an explicit cancel, a timeout nested in a cancelled parent, and a near
 		// deadline that expires (the last one costs real time: first handshake only in the quick
@@ -205,7 +242,7 @@ func Run(r *common.Run) error {
 			e.Do(cs, "blocked-forever")
 		}
 	}
-	r.Exhaustive = append(r.Exhaustive, "every read/write index (single and permanent failure), every end of input, every failing callback, each failure with the kinds of error value "+errKindsNote(r)+", every cancellation instant and every operation blocking with cancellation while blocked (each with four kinds of context: WithCancel, far deadline + cancel, timeout in a cancelled parent, near deadline expiring), of 10 instrumented standard handshakes (STARTTLS+auth+voluntary+bind; both roles; TCP/WebSocket; c2s/s2s; pre-secured)")
+	r.Exhaustive = append(r.Exhaustive, "every read/write index (single and permanent failure), every end of input, every failing callback, each failure with the kinds of error value "+errKindsNote(r)+", every cancellation instant and every operation blocking with cancellation while blocked (each with four kinds of context: WithCancel, far deadline + cancel, timeout in a cancelled parent, near deadline expiring), and the same on a plain io.ReadWriter without deadlines (failing operations, ends of input, failing Negotiate, cancellation instants), of 10 instrumented standard handshakes (STARTTLS+auth+voluntary+bind; both roles; TCP/WebSocket; c2s/s2s; pre-secured)")
 	runReal(r)
 	runComponent(e)
 	n := r.Pick(3000, 40000)
@@ -221,6 +258,9 @@ func Run(r *common.Run) error {
 		}
 		if r.Rnd.Chance(1, 2) {
 			cs.ErrKind = c01.ErrKinds[r.Rnd.Intn(len(c01.ErrKinds))]
+		}
+		if !strings.Contains(cs.Fault, "B") && !strings.Contains(cs.Fault, "H") && !cs.Block && r.Rnd.Chance(1, 4) {
+			cs.Raw = true
 		}
 		if (strings.HasPrefix(cs.Fault, "C") || strings.HasPrefix(cs.Fault, "B")) && c01.SkipForStalls() {
 			continue
